@@ -1113,12 +1113,21 @@ package rtcp
 
 //@ func (b *packetBuffer) read(v interface{}) (err error)
 //@   trusted
+//@   bounded[C15,C04,C01] genRead
 //@   modifies b, v
 //@   keeps b.bytes
 //@   allocates[C01] 16*(old(len(b.bytes)) - len(b.bytes))
+//@   requires zero1: isType(v, (*LossRLEReportBlock)(nil)) ==> len(dyn(v, (*LossRLEReportBlock)(nil)).Chunks) == 0
+//@   requires zero2: isType(v, (*DuplicateRLEReportBlock)(nil)) ==> len(dyn(v, (*DuplicateRLEReportBlock)(nil)).Chunks) == 0
+//@   requires zero3: isType(v, (*PacketReceiptTimesReportBlock)(nil)) ==> len(dyn(v, (*PacketReceiptTimesReportBlock)(nil)).ReceiptTime) == 0
+//@   requires zero5: isType(v, (*DLRRReportBlock)(nil)) ==> len(dyn(v, (*DLRRReportBlock)(nil)).Reports) == 0
+//@   requires zero8: isType(v, (*UnknownReportBlock)(nil)) ==> len(dyn(v, (*UnknownReportBlock)(nil)).Bytes) == 0
 //@   ensures suffix: isSuffix(b.bytes, old(b.bytes))
 //@   ensures xrheader: err == nil && isType(v, (*XRHeader)(nil)) ==> old(len(b.bytes)) >= 4 && len(b.bytes) == old(len(b.bytes)) - 4 && uint8(dyn(v, (*XRHeader)(nil)).BlockType) == old(b.bytes)[0] && dyn(v, (*XRHeader)(nil)).BlockLength == be16(old(b.bytes), 2)
-//@   ensures u32: err == nil && isType(v, (*uint32)(nil)) ==> len(b.bytes) == old(len(b.bytes)) - 4
+//@   ensures xrheaderts: err == nil && isType(v, (*XRHeader)(nil)) ==> uint8(dyn(v, (*XRHeader)(nil)).TypeSpecific) == old(b.bytes)[1]
+//@   ensures xrheaderok: isType(v, (*XRHeader)(nil)) ==> (err == nil <==> old(len(b.bytes)) >= 4)
+//@   ensures u32: err == nil && isType(v, (*uint32)(nil)) ==> len(b.bytes) == old(len(b.bytes)) - 4 && *dyn(v, (*uint32)(nil)) == be32(old(b.bytes), 0)
+//@   ensures u32ok: isType(v, (*uint32)(nil)) ==> (err == nil <==> old(len(b.bytes)) >= 4)
 //@   ensures k1: err == nil && isType(v, (*LossRLEReportBlock)(nil)) ==> uint8(dyn(v, (*LossRLEReportBlock)(nil)).XRHeader.BlockType) == old(b.bytes)[0]
 //@   ensures k2: err == nil && isType(v, (*DuplicateRLEReportBlock)(nil)) ==> uint8(dyn(v, (*DuplicateRLEReportBlock)(nil)).XRHeader.BlockType) == old(b.bytes)[0]
 //@   ensures k3: err == nil && isType(v, (*PacketReceiptTimesReportBlock)(nil)) ==> uint8(dyn(v, (*PacketReceiptTimesReportBlock)(nil)).XRHeader.BlockType) == old(b.bytes)[0]
@@ -1127,6 +1136,44 @@ package rtcp
 //@   ensures k6: err == nil && isType(v, (*StatisticsSummaryReportBlock)(nil)) ==> uint8(dyn(v, (*StatisticsSummaryReportBlock)(nil)).XRHeader.BlockType) == old(b.bytes)[0]
 //@   ensures k7: err == nil && isType(v, (*VoIPMetricsReportBlock)(nil)) ==> uint8(dyn(v, (*VoIPMetricsReportBlock)(nil)).XRHeader.BlockType) == old(b.bytes)[0]
 //@   ensures k8: err == nil && isType(v, (*UnknownReportBlock)(nil)) ==> uint8(dyn(v, (*UnknownReportBlock)(nil)).XRHeader.BlockType) == old(b.bytes)[0]
+//@   ensures fits1: isType(v, (*LossRLEReportBlock)(nil)) ==> (err == nil <==> specXRReadFits(dyn(v, (*LossRLEReportBlock)(nil)), old(len(b.bytes))))
+//@   ensures dec1: err == nil && isType(v, (*LossRLEReportBlock)(nil)) ==> specXRBlockAt(old(b.bytes), 0, dyn(v, (*LossRLEReportBlock)(nil)))
+//@   ensures fits2: isType(v, (*DuplicateRLEReportBlock)(nil)) ==> (err == nil <==> specXRReadFits(dyn(v, (*DuplicateRLEReportBlock)(nil)), old(len(b.bytes))))
+//@   ensures dec2: err == nil && isType(v, (*DuplicateRLEReportBlock)(nil)) ==> specXRBlockAt(old(b.bytes), 0, dyn(v, (*DuplicateRLEReportBlock)(nil)))
+//@   ensures fits3: isType(v, (*PacketReceiptTimesReportBlock)(nil)) ==> (err == nil <==> specXRReadFits(dyn(v, (*PacketReceiptTimesReportBlock)(nil)), old(len(b.bytes))))
+//@   ensures dec3: err == nil && isType(v, (*PacketReceiptTimesReportBlock)(nil)) ==> specXRBlockAt(old(b.bytes), 0, dyn(v, (*PacketReceiptTimesReportBlock)(nil)))
+//@   ensures fits4: isType(v, (*ReceiverReferenceTimeReportBlock)(nil)) ==> (err == nil <==> specXRReadFits(dyn(v, (*ReceiverReferenceTimeReportBlock)(nil)), old(len(b.bytes))))
+//@   ensures dec4: err == nil && isType(v, (*ReceiverReferenceTimeReportBlock)(nil)) ==> specXRBlockAt(old(b.bytes), 0, dyn(v, (*ReceiverReferenceTimeReportBlock)(nil)))
+//@   ensures fits5: isType(v, (*DLRRReportBlock)(nil)) ==> (err == nil <==> specXRReadFits(dyn(v, (*DLRRReportBlock)(nil)), old(len(b.bytes))))
+//@   ensures dec5: err == nil && isType(v, (*DLRRReportBlock)(nil)) ==> specXRBlockAt(old(b.bytes), 0, dyn(v, (*DLRRReportBlock)(nil)))
+//@   ensures fits6: isType(v, (*StatisticsSummaryReportBlock)(nil)) ==> (err == nil <==> specXRReadFits(dyn(v, (*StatisticsSummaryReportBlock)(nil)), old(len(b.bytes))))
+//@   ensures dec6: err == nil && isType(v, (*StatisticsSummaryReportBlock)(nil)) ==> specXRBlockAt(old(b.bytes), 0, dyn(v, (*StatisticsSummaryReportBlock)(nil)))
+//@   ensures fits7: isType(v, (*VoIPMetricsReportBlock)(nil)) ==> (err == nil <==> specXRReadFits(dyn(v, (*VoIPMetricsReportBlock)(nil)), old(len(b.bytes))))
+//@   ensures dec7: err == nil && isType(v, (*VoIPMetricsReportBlock)(nil)) ==> specXRBlockAt(old(b.bytes), 0, dyn(v, (*VoIPMetricsReportBlock)(nil)))
+//@   ensures fits8: isType(v, (*UnknownReportBlock)(nil)) ==> (err == nil <==> specXRReadFits(dyn(v, (*UnknownReportBlock)(nil)), old(len(b.bytes))))
+//@   ensures dec8: err == nil && isType(v, (*UnknownReportBlock)(nil)) ==> specXRBlockAt(old(b.bytes), 0, dyn(v, (*UnknownReportBlock)(nil)))
+//@   ensures n1: err == nil && isType(v, (*LossRLEReportBlock)(nil)) ==> len(b.bytes) == 0 && len(dyn(v, (*LossRLEReportBlock)(nil)).Chunks) == (old(len(b.bytes)) - 12) / 2
+//@   ensures n2: err == nil && isType(v, (*DuplicateRLEReportBlock)(nil)) ==> len(b.bytes) == 0 && len(dyn(v, (*DuplicateRLEReportBlock)(nil)).Chunks) == (old(len(b.bytes)) - 12) / 2
+//@   ensures n3: err == nil && isType(v, (*PacketReceiptTimesReportBlock)(nil)) ==> len(b.bytes) == 0 && len(dyn(v, (*PacketReceiptTimesReportBlock)(nil)).ReceiptTime) == (old(len(b.bytes)) - 12) / 4
+//@   ensures n4: err == nil && isType(v, (*ReceiverReferenceTimeReportBlock)(nil)) ==> len(b.bytes) == old(len(b.bytes)) - 12
+//@   ensures n5: err == nil && isType(v, (*DLRRReportBlock)(nil)) ==> len(b.bytes) == 0 && len(dyn(v, (*DLRRReportBlock)(nil)).Reports) == (old(len(b.bytes)) - 4) / 12
+//@   ensures n6: err == nil && isType(v, (*StatisticsSummaryReportBlock)(nil)) ==> len(b.bytes) == old(len(b.bytes)) - 40
+//@   ensures n7: err == nil && isType(v, (*VoIPMetricsReportBlock)(nil)) ==> len(b.bytes) == old(len(b.bytes)) - 36
+//@   ensures n8: err == nil && isType(v, (*UnknownReportBlock)(nil)) ==> len(b.bytes) == 0 && len(dyn(v, (*UnknownReportBlock)(nil)).Bytes) == old(len(b.bytes)) - 4
+
+//@ func (b *packetBuffer) write(v interface{}) (err error)
+//@   trusted
+//@   bounded[C15,C03] genWrite
+//@   modifies b
+//@   keeps b.bytes
+//@   writes b.bytes
+//@   ensures suffix: isSuffix(b.bytes, old(b.bytes))
+//@   ensures rawok: isType(v, []byte(nil)) ==> (err == nil <==> old(len(b.bytes)) >= len(dyn(v, []byte(nil))))
+//@   ensures rawlen: err == nil && isType(v, []byte(nil)) ==> len(b.bytes) == old(len(b.bytes)) - len(dyn(v, []byte(nil)))
+//@   ensures raw: forall k :: err == nil && isType(v, []byte(nil)) && 0 <= k && k < len(dyn(v, []byte(nil))) ==> old(b.bytes)[k] == dyn(v, []byte(nil))[k]
+//@   ensures xrok: isType(v, ExtendedReport{}) && old(len(b.bytes)) >= 4 + specXRBlocksLen(dyn(v, ExtendedReport{}).Reports, len(dyn(v, ExtendedReport{}).Reports)) ==> err == nil
+//@   ensures xrlen: err == nil && isType(v, ExtendedReport{}) ==> len(b.bytes) == old(len(b.bytes)) - 4 - specXRBlocksLen(dyn(v, ExtendedReport{}).Reports, len(dyn(v, ExtendedReport{}).Reports))
+//@   ensures xr: err == nil && isType(v, ExtendedReport{}) ==> be32(old(b.bytes), 0) == dyn(v, ExtendedReport{}).SenderSSRC && specXRBlocksAt(old(b.bytes), 4, dyn(v, ExtendedReport{}).Reports, len(dyn(v, ExtendedReport{}).Reports))
 
 //@ func (b *packetBuffer) split(size int) (result packetBuffer)
 //@   safety[C01]
@@ -1145,20 +1192,35 @@ package rtcp
 //@   mathint
 //@   allocates[C01] 4096 + 64*len(b)
 //@   ensures[C07] type: err == nil ==> len(b) >= 4 && b[0]>>6 == 2 && b[1] == 207
-//@   ensures[C04] kinds: forall k :: err == nil && 0 <= k && k < len(x.Reports) ==> x.Reports[k] != nil && specXRKind(x.Reports[k])
+//@   ensures[C04,C15] sender: err == nil ==> len(b) >= 8 && x.SenderSSRC == be32(b, 4)
+//@   ensures[C04,C15] kinds: forall k :: err == nil && 0 <= k && k < len(x.Reports) ==> x.Reports[k] != nil && specXRKind(x.Reports[k])
 //@   loop 1
 //@     keeps buffer.bytes
-//@     invariant isSuffix(buffer.bytes, b) && len(b) >= 4 && unchanged(x.SenderSSRC)
-//@     invariant[C04] forall k :: 0 <= k && k < len(x.Reports) ==> x.Reports[k] != nil && specXRKind(x.Reports[k])
+//@     invariant isSuffix(buffer.bytes, b) && len(b) >= 8 && unchanged(x.SenderSSRC)
+//@     invariant[C04,C15] forall k :: 0 <= k && k < len(x.Reports) ==> x.Reports[k] != nil && specXRKind(x.Reports[k])
 //@     invariant[C01] allocated() <= 128 + 48*(len(b) - len(buffer.bytes))
 //@     decreases len(buffer.bytes)
 
 //@ func (x ExtendedReport) Marshal() (result []byte, err error)
-//@   trusted
+//@   safety[C15]
 //@   fresh
+//@   mutates x.Reports
+//@   mathint
+//@   assumes blocks: forall k :: 0 <= k && k < len(x.Reports) ==> x.Reports[k] != nil
+//@   assumes sane: specXRBlocksLen(x.Reports, len(x.Reports)) <= 1<<30
+//@   ensures[C15,C05] size: err == nil ==> len(result) == 8 + specXRBlocksLen(x.Reports, len(x.Reports))
+//@   ensures[C15,C03] header: err == nil && len(result) <= 4*65536 ==> result[0] == 0x80 && result[1] == 207 && int(be16(result, 2)) == len(result)/4 - 1 && be32(result, 4) == x.SenderSSRC
+//@   ensures[C15,C03] blocks: err == nil ==> specXRBlocksAt(result[4:], 4, x.Reports, len(x.Reports))
+//@   ensures[C15] headers: forall k :: err == nil && 0 <= k && k < len(x.Reports) ==> specXRHeaderOK(x.Reports[k])
+//@   loop 1
+//@     invariant 0 <= iter() && iter() <= len(x.Reports)
+//@     invariant[C15] forall k :: 0 <= k && k < iter() ==> specXRHeaderOK(x.Reports[k])
+//@     decreases len(x.Reports) - iter()
 
 //@ func (x ExtendedReport) MarshalSize() (result int)
-//@   trusted
+//@   safety[C05]
+//@   assumes blocks: forall k :: 0 <= k && k < len(x.Reports) ==> x.Reports[k] != nil
+//@   ensures[C05,C15] size: result == 8 + specXRBlocksLen(x.Reports, len(x.Reports))
 
 //@ func (x *ExtendedReport) String() (result string)
 //@   trusted
@@ -1322,9 +1384,38 @@ package rtcp
 
 //@ func wireSize(v interface{}) (result int)
 //@   trusted
+//@   bounded[C15,C05] genWireSize
+//@   ensures nonneg: result >= 0
+//@   ensures xr: isType(v, ExtendedReport{}) ==> result == 4 + specXRBlocksLen(dyn(v, ExtendedReport{}).Reports, len(dyn(v, ExtendedReport{}).Reports))
+//@   ensures s1: isType(v, (*LossRLEReportBlock)(nil)) ==> result == 12 + 2*len(dyn(v, (*LossRLEReportBlock)(nil)).Chunks)
+//@   ensures s2: isType(v, (*DuplicateRLEReportBlock)(nil)) ==> result == 12 + 2*len(dyn(v, (*DuplicateRLEReportBlock)(nil)).Chunks)
+//@   ensures s3: isType(v, (*PacketReceiptTimesReportBlock)(nil)) ==> result == 12 + 4*len(dyn(v, (*PacketReceiptTimesReportBlock)(nil)).ReceiptTime)
+//@   ensures s4: isType(v, (*ReceiverReferenceTimeReportBlock)(nil)) ==> result == 12
+//@   ensures s5: isType(v, (*DLRRReportBlock)(nil)) ==> result == 4 + 12*len(dyn(v, (*DLRRReportBlock)(nil)).Reports)
+//@   ensures s6: isType(v, (*StatisticsSummaryReportBlock)(nil)) ==> result == 40
+//@   ensures s7: isType(v, (*VoIPMetricsReportBlock)(nil)) ==> result == 36
+//@   ensures s8: isType(v, (*UnknownReportBlock)(nil)) ==> result == 4 + len(dyn(v, (*UnknownReportBlock)(nil)).Bytes)
 
 //@ func specXRDestCount(bs []ReportBlock, n int) (result int)
 //@   rec monotone
+
+//@ func specXRBlocksLen(bs []ReportBlock, n int) (result int)
+//@   rec monotone
+
+//@ func specXRBlocksAt(buf []byte, off int, bs []ReportBlock, n int) (result bool)
+//@   rec
+
+//@ func specXRChunksAt(buf []byte, off int, cs []Chunk, n int) (result bool)
+//@   rec
+
+//@ func specXRTimesAt(buf []byte, off int, ts []uint32, n int) (result bool)
+//@   rec
+
+//@ func specXRDLRRAt(buf []byte, off int, rs []DLRRReport, n int) (result bool)
+//@   rec
+
+//@ func specXRBytesAt(buf []byte, off int, bs []byte, n int) (result bool)
+//@   rec
 
 //@ func (t BlockTypeType) String() (result string)
 //@   safety[C17]
@@ -1397,61 +1488,93 @@ package rtcp
 //@   safety[C09]
 //@   modifies *b
 //@   recv any
-//@   ensures[C09,C16] header: b.XRHeader.BlockType == 1 && b.XRHeader.TypeSpecific == TypeSpecificField(b.T&0x0F)
+//@   ensures[C09,C16,C15] header: b.XRHeader.BlockType == 1 && b.XRHeader.TypeSpecific == TypeSpecificField(b.T&0x0F)
 //@   ensures[C18] onlyheader: b.T == old(b.T) && b.SSRC == old(b.SSRC) && b.BeginSeq == old(b.BeginSeq) && b.EndSeq == old(b.EndSeq) && sameSlice(b.Chunks, old(b.Chunks))
+//@   ensures[C15] length: b.XRHeader.BlockLength == uint16((12 + 2*len(b.Chunks))/4 - 1)
 
 //@ func (b *LossRLEReportBlock) unpackBlockHeader()
 //@   safety[C01]
 //@   modifies *b
 //@   recv any
 //@   allocates[C01] 0
-//@   ensures[C04,C16] t: b.T == uint8(old(b.XRHeader.TypeSpecific))&0x0F
+//@   ensures[C04,C16,C15] t: b.T == uint8(old(b.XRHeader.TypeSpecific))&0x0F
 //@   ensures[C04] hdr: b.XRHeader == old(b.XRHeader)
 
 //@ func (b *DuplicateRLEReportBlock) setupBlockHeader()
 //@   safety[C09]
 //@   modifies *b
 //@   recv any
-//@   ensures[C09,C16] header: b.XRHeader.BlockType == 2 && b.XRHeader.TypeSpecific == TypeSpecificField(b.T&0x0F)
+//@   ensures[C09,C16,C15] header: b.XRHeader.BlockType == 2 && b.XRHeader.TypeSpecific == TypeSpecificField(b.T&0x0F)
 //@   ensures[C18] onlyheader: b.T == old(b.T) && b.SSRC == old(b.SSRC) && b.BeginSeq == old(b.BeginSeq) && b.EndSeq == old(b.EndSeq) && sameSlice(b.Chunks, old(b.Chunks))
+//@   ensures[C15] length: b.XRHeader.BlockLength == uint16((12 + 2*len(b.Chunks))/4 - 1)
 
 //@ func (b *DuplicateRLEReportBlock) unpackBlockHeader()
 //@   safety[C01]
 //@   modifies *b
 //@   recv any
 //@   allocates[C01] 0
-//@   ensures[C04,C16] t: b.T == uint8(old(b.XRHeader.TypeSpecific))&0x0F
+//@   ensures[C04,C16,C15] t: b.T == uint8(old(b.XRHeader.TypeSpecific))&0x0F
 //@   ensures[C04] hdr: b.XRHeader == old(b.XRHeader)
 
 //@ func (b *PacketReceiptTimesReportBlock) setupBlockHeader()
 //@   safety[C09]
 //@   modifies *b
 //@   recv any
-//@   ensures[C09,C16] header: b.XRHeader.BlockType == 3 && b.XRHeader.TypeSpecific == TypeSpecificField(b.T&0x0F)
+//@   ensures[C09,C16,C15] header: b.XRHeader.BlockType == 3 && b.XRHeader.TypeSpecific == TypeSpecificField(b.T&0x0F)
 //@   ensures[C18] onlyheader: b.T == old(b.T) && b.SSRC == old(b.SSRC) && b.BeginSeq == old(b.BeginSeq) && b.EndSeq == old(b.EndSeq) && sameSlice(b.ReceiptTime, old(b.ReceiptTime))
+//@   ensures[C15] length: b.XRHeader.BlockLength == uint16((12 + 4*len(b.ReceiptTime))/4 - 1)
 
 //@ func (b *PacketReceiptTimesReportBlock) unpackBlockHeader()
 //@   safety[C01]
 //@   modifies *b
 //@   recv any
 //@   allocates[C01] 0
-//@   ensures[C04,C16] t: b.T == uint8(old(b.XRHeader.TypeSpecific))&0x0F
+//@   ensures[C04,C16,C15] t: b.T == uint8(old(b.XRHeader.TypeSpecific))&0x0F
 //@   ensures[C04] hdr: b.XRHeader == old(b.XRHeader)
 
 //@ func (b *StatisticsSummaryReportBlock) setupBlockHeader()
 //@   safety[C09]
 //@   modifies *b
 //@   recv any
-//@   ensures[C09,C16] header: b.XRHeader.BlockType == 6 && b.XRHeader.TypeSpecific == specStatSummaryBits(b.LossReports, b.DuplicateReports, b.JitterReports, b.TTLorHopLimit)
+//@   ensures[C09,C16,C15] header: b.XRHeader.BlockType == 6 && b.XRHeader.TypeSpecific == specStatSummaryBits(b.LossReports, b.DuplicateReports, b.JitterReports, b.TTLorHopLimit)
 //@   ensures[C18] onlyheader: b.LossReports == old(b.LossReports) && b.DuplicateReports == old(b.DuplicateReports) && b.JitterReports == old(b.JitterReports) && b.TTLorHopLimit == old(b.TTLorHopLimit) && b.SSRC == old(b.SSRC) && b.LostPackets == old(b.LostPackets)
+//@   ensures[C15] length: b.XRHeader.BlockLength == 9
 
 //@ func (b *StatisticsSummaryReportBlock) unpackBlockHeader()
 //@   safety[C01]
 //@   modifies *b
 //@   recv any
 //@   allocates[C01] 0
-//@   ensures[C04,C16] bits: specStatSummaryBits(b.LossReports, b.DuplicateReports, b.JitterReports, b.TTLorHopLimit) == old(b.XRHeader.TypeSpecific)&0xF8
+//@   ensures[C04,C16,C15] bits: specStatSummaryBits(b.LossReports, b.DuplicateReports, b.JitterReports, b.TTLorHopLimit) == old(b.XRHeader.TypeSpecific)&0xF8
 //@   ensures[C04] hdr: b.XRHeader == old(b.XRHeader)
+
+//@ func (b *ReceiverReferenceTimeReportBlock) setupBlockHeader()
+//@   safety[C09]
+//@   modifies *b
+//@   recv any
+//@   ensures[C09,C15] header: b.XRHeader.BlockType == 4 && b.XRHeader.TypeSpecific == 0 && b.XRHeader.BlockLength == 2
+//@   ensures[C18] onlyheader: b.NTPTimestamp == old(b.NTPTimestamp)
+
+//@ func (b *DLRRReportBlock) setupBlockHeader()
+//@   safety[C09]
+//@   modifies *b
+//@   recv any
+//@   ensures[C09,C15] header: b.XRHeader.BlockType == 5 && b.XRHeader.TypeSpecific == 0 && b.XRHeader.BlockLength == uint16((4 + 12*len(b.Reports))/4 - 1)
+//@   ensures[C18] onlyheader: sameSlice(b.Reports, old(b.Reports))
+
+//@ func (b *VoIPMetricsReportBlock) setupBlockHeader()
+//@   safety[C09]
+//@   modifies *b
+//@   recv any
+//@   ensures[C09,C15] header: b.XRHeader.BlockType == 7 && b.XRHeader.TypeSpecific == 0 && b.XRHeader.BlockLength == 8
+//@   ensures[C18] onlyheader: b.SSRC == old(b.SSRC) && b.LossRate == old(b.LossRate) && b.JBAbsMax == old(b.JBAbsMax)
+
+//@ func (b *UnknownReportBlock) setupBlockHeader()
+//@   safety[C09]
+//@   modifies *b
+//@   recv any
+//@   ensures[C09,C15] header: b.XRHeader.BlockType == old(b.XRHeader.BlockType) && b.XRHeader.TypeSpecific == old(b.XRHeader.TypeSpecific) && b.XRHeader.BlockLength == uint16((4 + len(b.Bytes))/4 - 1)
+//@   ensures[C18] onlyheader: sameSlice(b.Bytes, old(b.Bytes))
 
 //@ func (x *ExtendedReport) DestinationSSRC() (result []uint32)
 //@   safety[C10]
@@ -1539,6 +1662,32 @@ package rtcp
 //@   ensures[C02] fields: err == nil ==> q.SenderSSRC == p.SenderSSRC && len(q.SSRCs) == len(p.SSRCs)
 //@   ensures[C02] ssrcs: forall k :: err == nil && 0 <= k && k < len(p.SSRCs) ==> q.SSRCs[k] == p.SSRCs[k]
 //@   ensures[C02,C14] quantised: err == nil && p.Bitrate >= 1 ==> q.Bitrate <= p.Bitrate
+
+//@ func lemmaRoundTripXR(p ExtendedReport) (q ExtendedReport, err error, err2 error)
+//@   lemma
+//@   trusted
+//@   bounded[C15,C02] genXR
+//@   ensures encodes: err == nil
+//@   ensures decodes: err == nil && specXRAllAligned(p.Reports, len(p.Reports)) ==> err2 == nil
+//@   ensures same: err == nil && err2 == nil && specXRAllAligned(p.Reports, len(p.Reports)) && specXRRepresentable(p.Reports, len(p.Reports)) ==> q.SenderSSRC == p.SenderSSRC && len(q.Reports) == len(p.Reports) && specXRBlocksEq(p.Reports, q.Reports, len(p.Reports), true)
+//@   ensures kinds: forall k :: err == nil && err2 == nil && 0 <= k && k < len(q.Reports) ==> q.Reports[k] != nil && specXRKind(q.Reports[k])
+
+//@ func lemmaXRFraming(p ExtendedReport) (out []byte, err error)
+//@   lemma
+//@   trusted
+//@   bounded[C15,C05] genXR
+//@   ensures aligned: err == nil ==> len(out)%4 == 0
+//@   ensures framed: forall k :: err == nil && 0 <= k && k < len(p.Reports) ==> specXRFramed(p.Reports[k])
+//@   ensures walk: err == nil ==> specXRWalk(out, 8) == len(p.Reports)
+//@   ensures size: err == nil ==> len(out) == p.MarshalSize()
+
+//@ func lemmaReencodeXR(raw []byte) (p ExtendedReport, q ExtendedReport, err error, err2 error, err3 error)
+//@   lemma
+//@   trusted
+//@   bounded[C15,C09,C01] genRaw
+//@   ensures reencodes: err == nil ==> err2 == nil
+//@   ensures accepted: err == nil && err2 == nil && specXRAllAligned(p.Reports, len(p.Reports)) ==> err3 == nil
+//@   ensures same: err == nil && err2 == nil && err3 == nil && specXRAllAligned(p.Reports, len(p.Reports)) ==> q.SenderSSRC == p.SenderSSRC && len(q.Reports) == len(p.Reports) && specXRBlocksEq(p.Reports, q.Reports, len(p.Reports), false)
 
 //@ func lemmaReencodeSR(raw []byte) (p SenderReport, q SenderReport, err error, err2 error, err3 error)
 //@   lemma
